@@ -59,7 +59,7 @@ def labels_partition(
 
     sites = list(hg.nodes)
     neighbs = collections.defaultdict(set)
-    max_edge_weight = max(winfo["edge_weights"])
+    max_edge_weight = max(winfo["edge_weights"], default=1)
     weights = {}
 
     # populate neighbor list and weights by edge weight
